@@ -54,6 +54,7 @@ type Program struct {
 	Pad      vlib.Str   `json:"pad"`  // byte the value tokens are padded with (values are not only ASCII)
 	Big      bool       `json:"multi_mib_tables,omitempty"`
 	Many     bool       `json:"many_tables,omitempty"`
+	Long     bool       `json:"long_lived_txn_mode,omitempty"`
 	Free     bool       `json:"free"` // flusher runs free (no gates)
 	AutoRead bool       `json:"auto_read"`
 	Ops      []Op       `json:"ops"`
@@ -128,7 +129,7 @@ var misuseKinds = []string{"set_finished", "del_finished", "commit_finished", "g
 
 func genProgram(t *rapid.T, pf Profile) Program {
 	p := Program{Cfg: genCfg(t, pf.SmallMem), Seed: rapid.Int64().Draw(t, "seed"), Free: pf.Free, AutoRead: pf.Name == "C01" || pf.Name == "C02"}
-	p.Pad = vlib.Str(rapid.SampledFrom([]string{"x", "x", "x", "\x00", "\xff", "@", "\n", "\x80"}).Draw(t, "pad"))
+	p.Pad = vlib.Str(rapid.SampledFrom([]string{"x", "x", "x", "\x00", "\xff", "@", "\n", "\x80", "rand", "rand"}).Draw(t, "pad"))
 	nk := rapid.IntRange(3, 10).Draw(t, "nkeys")
 	seen := map[string]bool{}
 	for len(p.Keys) < nk {
@@ -169,7 +170,11 @@ func genProgram(t *rapid.T, pf Profile) Program {
 	}
 	n := rapid.IntRange(10, pf.MaxOps).Draw(t, "nops")
 	cur := p.Cfg
-	if mode := rapid.IntRange(0, 399).Draw(t, "rareMode"); mode == 211 && pf.Name != "C07" {
+	mode := rapid.IntRange(0, 399).Draw(t, "rareMode")
+	if (pf.Name == "C01" || pf.Name == "C02") && mode == 399 {
+		mode = 211 // the two properties about data at rest see the many-tables mode more often (1 in 200)
+	}
+	if mode == 211 && pf.Name != "C07" {
 		// many tables: 150 keys written one per commit with a 1-byte memtable threshold, so that
 		// levels hold dozens to hundreds of single-key tables (three-digit table indices)
 		p.Keys = nil
@@ -177,7 +182,9 @@ func genProgram(t *rapid.T, pf Profile) Program {
 			p.Keys = append(p.Keys, vlib.Str(fmt.Sprintf("t%03d", i)))
 		}
 		nk = len(p.Keys)
-		p.Cfg.MemThreshold, p.Cfg.L0Target, p.Cfg.Ratio, p.Cfg.Block, p.Cfg.ImmBuf = 1, rapid.SampledFrom([]int{2, 5}).Draw(t, "mtL0"), 10, 4096, 4
+		// ratio 10: wide levels (two- and three-digit table numbers); ratio 1 or 2 with disjoint
+		// single-key tables: a deep tree (two-digit level numbers)
+		p.Cfg.MemThreshold, p.Cfg.L0Target, p.Cfg.Ratio, p.Cfg.Block, p.Cfg.ImmBuf = 1, rapid.SampledFrom([]int{1, 2, 5}).Draw(t, "mtL0"), rapid.SampledFrom([]int{10, 10, 1, 2}).Draw(t, "mtRatio"), 4096, 4
 		cur = p.Cfg
 		p.Many = true
 		perm := rapid.Permutation(seqInts(150)).Draw(t, "mtOrder")
@@ -210,6 +217,20 @@ func genProgram(t *rapid.T, pf Profile) Program {
 		p.Ops = append(p.Ops, Op{Op: "checkall"})
 		n = rapid.IntRange(5, 30).Draw(t, "nopsAfterMarathon")
 	}
+	if pf.Templates && mode >= 300 && mode < 306 && !p.Many {
+		// long-lived-transaction mode: anomaly patterns in the shadow of a transaction that stays
+		// open during hundreds or thousands of commits. Sizes that make every commit cheap (no
+		// rotation, ordinary towers and blocks): this mode is about the oracle's bookkeeping.
+		p.Cfg.MemThreshold, p.Cfg.SkipListMaxLevel, p.Cfg.SkipListP, p.Cfg.Block = 0, 12, 0.5, 4096
+		p.Keys = nil
+		for i := 0; i < 8; i++ {
+			p.Keys = append(p.Keys, vlib.Str(fmt.Sprintf("l%d", i)))
+		}
+		nk = len(p.Keys)
+		cur = p.Cfg
+		p.Long = true
+		n = rapid.IntRange(10, 40).Draw(t, "nopsLong")
+	}
 	if (pf.Name == "C01" || pf.Name == "C02") && rapid.IntRange(0, 79).Draw(t, "bigTables") == 41 {
 		// size class: ~100 commits of 64 KiB values with the default (4 MiB) memtable threshold,
 		// i.e. tables whose data region is several MiB, then flusher work / reopen cycles
@@ -232,8 +253,8 @@ func genProgram(t *rapid.T, pf Profile) Program {
 	}
 	for i := 0; i < n; i++ {
 		kind := rapid.SampledFrom(kinds).Draw(t, "op")
-		if pf.Templates && rapid.IntRange(0, 14).Draw(t, "tmpl") == 0 {
-			p.Ops = append(p.Ops, genTemplate(t, nk)...)
+		if pf.Templates && (rapid.IntRange(0, 14).Draw(t, "tmpl") == 0 || (p.Long && i%3 == 0)) {
+			p.Ops = append(p.Ops, genTemplate(t, nk, p.Long && i%3 == 0)...)
 			continue
 		}
 		o := Op{Op: kind}
@@ -267,7 +288,7 @@ func genProgram(t *rapid.T, pf Profile) Program {
 		case "fstep":
 			o.N = rapid.IntRange(1, 4).Draw(t, "n")
 		case "reopen":
-			if rapid.IntRange(0, 2).Draw(t, "sameCfg") == 0 {
+			if rapid.IntRange(0, 2).Draw(t, "sameCfg") == 0 || p.Long {
 				c := cur
 				o.Cfg = &c
 			} else {
@@ -309,7 +330,7 @@ func genProgram(t *rapid.T, pf Profile) Program {
 // If the engine is serializable one of the participants is refused (or the
 // result is serial); the oracles decide, the template only raises the odds
 // that overlapping read/write sets meet.
-func genTemplate(t *rapid.T, nk int) []Op {
+func genTemplate(t *rapid.T, nk int, long bool) []Op {
 	x := rapid.IntRange(0, nk-1).Draw(t, "tx")
 	y := rapid.IntRange(0, nk-1).Draw(t, "ty")
 	var a, b []Op // steps of transaction A (selector relative, see below) and B
@@ -327,20 +348,48 @@ func genTemplate(t *rapid.T, nk int) []Op {
 	}
 	// "tbegin" opens two fresh read-write transactions; their steps refer to them as
 	// T = -1 (first) and T = -2 (second), resolved by the interpreter.
-	out := []Op{{Op: "tbegin"}}
-	ia, ib := 0, 0
-	for ia < len(a) || ib < len(b) {
-		pickA := ib >= len(b) || (ia < len(a) && rapid.Bool().Draw(t, "interleave"))
-		if pickA {
+	var out, c []Op
+	if long {
+		// the pattern runs in the shadow of a long-lived transaction (T = -3) that was
+		// open during hundreds or thousands of commits, and that ends - followed by one more commit,
+		// i.e. one more clean-up of the oracle's bookkeeping - somewhere in the middle of the pattern
+		out = append(out, Op{Op: "lbegin", RW: rapid.Bool().Draw(t, "longRW")}, Op{Op: "get", T: -3, K: y},
+			Op{Op: "burst", N: rapid.SampledFrom([]int{40, 300, 900, 1400, 2700}).Draw(t, "longBurst"), K: rapid.IntRange(0, nk-1).Draw(t, "longK")})
+		c = []Op{{Op: "discard", T: -3}, {Op: "settle"}, {Op: "update", Ups: []UpOp{{Op: "set", K: rapid.IntRange(0, nk-1).Draw(t, "longK2"), VLen: 0}}}, {Op: "settle"}}
+	}
+	out = append(out, Op{Op: "tbegin"})
+	ia, ib, ic := 0, 0, 0
+	for ia < len(a) || ib < len(b) || ic < len(c) {
+		var live []int
+		if ia < len(a) {
+			live = append(live, 0)
+		}
+		if ib < len(b) {
+			live = append(live, 1)
+		}
+		if ic < len(c) {
+			live = append(live, 2)
+		}
+		which := live[0]
+		if len(live) > 1 {
+			which = live[rapid.IntRange(0, len(live)-1).Draw(t, "interleave")]
+		}
+		switch which {
+		case 0:
 			o := a[ia]
 			o.T = -1
 			out = append(out, o)
 			ia++
-		} else {
+		case 1:
 			o := b[ib]
-			o.T = -2
+			if o.Op != "tmpl_view" {
+				o.T = -2
+			}
 			out = append(out, o)
 			ib++
+		default:
+			out = append(out, c[ic])
+			ic++
 		}
 	}
 	return out
